@@ -49,7 +49,7 @@ MODULES = ["Spydr.Verilog.Model", "Spydr.Verilog.ModelElab", "Spydr.Verilog.Mode
            "Spydr.Verilog.RoundTripSingle", "Spydr.Verilog.RoundTripBits",
            "Spydr.Verilog.RoundTripTrack", "Spydr.Verilog.RoundTripAst", "Spydr.Verilog.RoundTripView",
            "Spydr.Verilog.RoundTripTokA", "Spydr.Verilog.RoundTripTokB", "Spydr.Verilog.RoundTripTokC",
-           "Spydr.Verilog.RoundTripTokD"]
+           "Spydr.Verilog.RoundTripTokD", "Spydr.Verilog.RoundTripText"]
 THEOREMS = {
     "C06": ["Spydr.Verilog.getWires_spec", "Spydr.Verilog.getWires_spec_single_all", "Spydr.Verilog.concat_spec",
             "Spydr.Verilog.connect_low_aligned", "Spydr.Verilog.connect_low_aligned_fresh",
@@ -74,7 +74,8 @@ THEOREMS = {
             "Spydr.Verilog.Elab.buildW3_cab", "Spydr.Verilog.Elab.buildW3_ports", "Spydr.Verilog.Elab.buildW3_PC",
             "Spydr.Verilog.Elab.cables_view", "Spydr.Verilog.Elab.ports_view", "Spydr.Verilog.Elab.inst_view_step",
             "Spydr.Verilog.Elab.c04_view", "Spydr.Verilog.Elab.c04_ast", "Spydr.Verilog.Elab.exNet_frag",
-            "Spydr.Verilog.Elab.expr_toks", "Spydr.Verilog.Elab.star_toks", "Spydr.Verilog.Elab.paramMap_toks", "Spydr.Verilog.Elab.namedMapGo_toks", "Spydr.Verilog.Elab.instP_toks", "Spydr.Verilog.Elab.portDeclP_toks", "Spydr.Verilog.Elab.cableDeclGo_toks", "Spydr.Verilog.Elab.bodyGo_items", "Spydr.Verilog.Elab.moduleP_toks", "Spydr.Verilog.Elab.parseV_toks", "Spydr.Verilog.Elab.parse_tokens", "Spydr.Verilog.Elab.c04_tokens", "Spydr.Verilog.Elab.exNet_tokens"],
+            "Spydr.Verilog.Elab.expr_toks", "Spydr.Verilog.Elab.star_toks", "Spydr.Verilog.Elab.paramMap_toks", "Spydr.Verilog.Elab.namedMapGo_toks", "Spydr.Verilog.Elab.instP_toks", "Spydr.Verilog.Elab.portDeclP_toks", "Spydr.Verilog.Elab.cableDeclGo_toks", "Spydr.Verilog.Elab.bodyGo_items", "Spydr.Verilog.Elab.moduleP_toks", "Spydr.Verilog.Elab.parseV_toks", "Spydr.Verilog.Elab.parse_tokens", "Spydr.Verilog.Elab.c04_tokens", "Spydr.Verilog.Elab.exNet_tokens",
+            "Spydr.Verilog.Elab.c04_text", "Spydr.Verilog.Elab.exNet_full", "Spydr.Verilog.Elab.exNet_roundtrip"],
 }
 
 
